@@ -8,7 +8,8 @@ from . import gen
 
 UNI = ["a", "b", "ä", "😀", "日本", 'q"t', "a b", "c", ""]
 KINDS = ["k1", "k2", "k3"]
-FLAVOURS = ["plain_str", "str_ids", "str_hook", "obj_cb", "obj_derived", "dw", "typed_str", "typed_str_ids", "typed_obj", "typed_derived", "fs"]
+FLAVOURS = ["plain_str", "str_ids", "str_hook", "obj_cb", "obj_derived", "obj_default", "typed_obj_default", "dw", "typed_str", "typed_str_ids",
+            "typed_obj", "typed_derived", "fs"]
 
 KEY_MAPS = {"default": True, "off": False,
             "custom": {"data_id": "i", "str": "s", "kind": "k", "type": "t", "name": "n", "age": "a"}}
@@ -30,6 +31,17 @@ class Obj:
 
     def __repr__(self):
         return f"Obj<{self.name},{self.typ},{self.guid}>"
+
+
+class PlainObj:
+    """No __eq__/__hash__: identity semantics, default data_id = hash(obj)."""
+
+    def __init__(self, name, typ):
+        self.name = name
+        self.typ = typ
+
+    def __repr__(self):
+        return f"PlainObj<{self.name}>"
 
 
 class FalsyObj(Obj):
@@ -186,6 +198,23 @@ def build_source(flavour, f, rng):
             labs = list(range(n))
         gen.build(t, f, lambda i: pool[labs[i]], kind=kind)
         load_cls = cls
+    elif flavour in ("obj_default", "typed_obj_default"):
+        # plain objects keyed by their default (identity) hash: a clone is the *same* object added again; after a
+        # round trip the occurrences of one object must again share one data object (clone group preserved)
+        cls = TypedTree if typed else Tree
+        t = cls("src")
+        pool = [PlainObj(f"po{i}", rng.choice(["person", "dept"])) for i in range(max(1, n // 2 + 1))]
+        labs = gen.clone_labeling(rng, f, list(range(len(pool))))
+        if labs is None:
+            pool = [PlainObj(f"po{i}", "person") for i in range(n)]
+            labs = list(range(n))
+        # every occurrence of one object has the same kind: the documented layout stores a repeated occurrence of
+        # *differing* kind in full, which for identity-keyed objects cannot preserve the sharing (not demanded here)
+        okind = (lambda i: "".join(["k", str(labs[i] % 3)])) if typed else None
+        gen.build(t, f, lambda i: pool[labs[i]], kind=okind)
+        save_kw["mapper"] = lambda node, data: {**data, "type": node.data.typ, "name": node.data.name}
+        load_kw["mapper"] = lambda parent, data: PlainObj(data["name"], data["type"])
+        load_cls = cls
     elif flavour == "dw":
         t = Tree("src")
         dicts = [{"title": f"d{i}", "num": i} for i in range(max(1, n // 2 + 1))]
@@ -230,6 +259,8 @@ def data_key(d):
 
     if isinstance(d, Obj):
         return d.key()
+    if isinstance(d, PlainObj):
+        return ("PlainObj", d.name, d.typ)
     if isinstance(d, DictWrapper):
         return ("DW", tuple(sorted(d._dict.items())))
     if type(d).__name__ == "FileSystemEntry":
